@@ -27,10 +27,30 @@ reg("C16", ["c16_crc.c"],
     exhaustive={"quick": "all 2^24 (state, octet) update steps",
                 "thorough": "all 2^24 update steps and all 2^32 (state, two-octet buffer) pairs"})
 
+reg("C15", ["c15_endian.c"],
+    quick=("dbg-asan", "noswap"), thorough=("dbg-asan", "noswap", "rel-asan"),
+    rule="for each of the 48 store/load codec pairs (u/s x 16..64 bit x n/b/l, f32/f64 x n/b/l): all values for 16 "
+         "and 24 bit (16 bit at every alignment 0..7), 32 bit strided by 211 (quick) or all 2^32 (thorough), wider: "
+         "every octet lane x every octet value x 3 fills x 8 alignments, all one- and two-bit patterns and their "
+         "complements, boundaries, float classes incl. NaN payloads, seeded random; plus exact-size poisoned-arena "
+         "objects. Swaps: all 16/24-bit values, strided/all 32-bit, lanes+bits+random for wider. Range predicates: "
+         "2^i +- 3, extremes, random magnitudes. A signature is (codec or helper, chunk); evaluations counts single "
+         "store+load (or swap, predicate) comparisons.",
+    exhaustive={"quick": "all 16- and 24-bit values of every codec and swap",
+                "thorough": "all 16-, 24- and 32-bit values of every codec and swap"})
+
 SAN_NOTE = ("Trusted: gcc 12 ASan/UBSan runtime, the harness' reference model, the fork-per-unit runner. "
             "Assumes little-endian x86-64; decides only the executions listed in the evidence file.")
 
 MANIFEST_TEXT = {
+    "C15": dict(
+        technique="runtime monitoring: exhaustive/structured execution under ASan/UBSan against a shift/mask reference, both swap implementations",
+        text="Every one of the 111 functions is executed on complete value sets for widths up to 24 (32 in thorough) bits and on "
+             "lane/bit/boundary/random sets for wider ones, at every alignment in a canary buffer and on exact-size "
+             "poisoned objects; stores are compared octet for octet with an independent shift/mask serialiser, loads "
+             "with the value (sign extension, NaN payloads bit-identical). Built twice: with and without "
+             "UFW_USE_BUILTIN_SWAP.",
+        note=SAN_NOTE),
     "C16": dict(
         technique="runtime monitoring: exhaustive execution under ASan/UBSan against a bitwise CRC-16/ARC reference",
         text="The update step is executed on all 2^24 (state, octet) pairs and compared with the bitwise definition; "
